@@ -38,7 +38,8 @@ func (i IntSet) Insert(val int) IntSet {
 	if len(i.data) == 0 {
 		return IntSet{[]int{val}}
 	}
-	i2 := i
+	i2 := IntSet{make([]int, len(i.data), len(i.data)+1)}
+	copy(i2.data, i.data)
 	i2.insertValue(val)
 	return i2
 }
